@@ -68,6 +68,19 @@ impl Exec {
     }
 }
 
+/// (number of data-area writes to fail, fail every write, fail every fsync) by program family.
+pub fn fault_spec(name: &str) -> (u32, bool, bool) {
+    if name.starts_with("fault-data3:") {
+        (3, false, false)
+    } else if name.starts_with("fault-writes:") {
+        (0, true, false)
+    } else if name.starts_with("fault-fsyncs:") {
+        (0, false, true)
+    } else {
+        (0, false, false)
+    }
+}
+
 pub type DecisionCheck = Arc<dyn Fn(&Arc<feoxdb::FeoxStore>) -> Option<String> + Send + Sync>;
 
 /// Execute `p` once under the schedule prefix (thread ids); defaults afterwards.
@@ -83,26 +96,44 @@ pub fn execute(p: &Program, prefix: &[usize], horizon: usize, on_decision: Optio
         machinery: None,
         unjoined: 0,
     };
-    let sess = Session::new();
-    sess.clock.store(T0, Ordering::SeqCst);
-    sess.set_flag(F_NO_URING, !p.cfg.uring);
-    sess.set_flag(F_FORCE_SYNC, !p.cfg.uring);
     let mut roles: Vec<&'static str> = Vec::new();
     if p.cfg.persistent {
-        for _ in 0..p.cfg.workers {
-            roles.push("worker");
+        for i in 0..p.cfg.workers {
+            roles.push(feoxdb::verif::worker_role(i));
         }
         roles.push("periodic");
     }
-    let sched = Sched::new(prefix.to_vec(), horizon, &roles);
-    sess.set_sched(Some(sched.clone() as Arc<dyn SchedHooks>));
-    let mut sut = match Sut::create_with(p.cfg, "sched", sess.clone()) {
-        Ok(s) => s,
-        Err(e) => {
-            ex.machinery = Some(e);
+    let mut tries = 0;
+    let (sess, sched, mut sut) = loop {
+        let sess = Session::new();
+        sess.clock.store(T0, Ordering::SeqCst);
+        sess.set_flag(F_NO_URING, !p.cfg.uring);
+        sess.set_flag(F_FORCE_SYNC, !p.cfg.uring);
+        let sched = Sched::new(prefix.to_vec(), horizon, &roles);
+        sess.set_sched(Some(sched.clone() as Arc<dyn SchedHooks>));
+        let sut = match Sut::create_with(p.cfg, "sched", sess.clone()) {
+            Ok(s) => s,
+            Err(e) => {
+                ex.machinery = Some(e);
+                return ex;
+            }
+        };
+        // Shard assignment is randomised per store: with several workers rebuild until
+        // key i maps to shard i mod workers, so that the work distribution is reproducible.
+        let ok = !(p.cfg.persistent && p.cfg.workers > 1)
+            || p.tables.keys.iter().enumerate().all(|(i, k)| sut.store().verif_shard_of(k) == Some(i % p.cfg.workers));
+        if ok {
+            break (sess, sched, sut);
+        }
+        tries += 1;
+        if tries > 400 {
+            ex.machinery = Some("could not obtain the wanted key-to-shard assignment".into());
             return ex;
         }
+        drop(sut);
     };
+    // faults requested by the program family (applied to the controlled phase only)
+    let fault = fault_spec(&p.name);
     let n_bg = if p.cfg.persistent { p.cfg.workers + 1 } else { 0 };
     let t0 = std::time::Instant::now();
     while sess.adopted.load(Ordering::SeqCst) < n_bg {
@@ -124,6 +155,12 @@ pub fn execute(p: &Program, prefix: &[usize], horizon: usize, on_decision: Optio
         }
     }
     ex.init = Some(model.clone());
+    {
+        let mut f = sess.fault.lock();
+        f.fail_data_writes = fault.0;
+        f.fail_writes = fault.1;
+        f.fail_fsyncs = fault.2;
+    }
     let store = sut.store().clone();
     if let Some(f) = on_decision {
         let st = store.clone();
@@ -197,6 +234,13 @@ pub fn execute(p: &Program, prefix: &[usize], horizon: usize, on_decision: Optio
     }
     ex.recs = recs.lock().unwrap().clone();
     ex.recs.sort_by_key(|r| r.invoke);
+    {
+        // the device works again for the quiescent observations and the close
+        let mut f = sess.fault.lock();
+        f.fail_data_writes = 0;
+        f.fail_writes = false;
+        f.fail_fsyncs = false;
+    }
     if ex.unjoined == 0 && matches!(ex.outcome, Outcome::Completed) {
         // quiescent observations
         if p.cfg.persistent {
